@@ -266,7 +266,7 @@ def _distribute(g: MG, draw, prog):
     if nfiles and n and all(f == 0 for f in file_of):
         # at least one macro lives in an imported file: the one nothing else calls into from below (index 0 is a leaf callee)
         file_of[0] = g.i(1, nfiles)
-    kinds = ["same", "sub", "parent", "abs", "lookup"]
+    kinds = ["same", "sub", "parent", "abs", "lookup", "sibling"]
     files = []
     for f in range(1, nfiles + 1):
         kind = g.pick(kinds)
@@ -277,6 +277,9 @@ def _distribute(g: MG, draw, prog):
             rel = f"proj/sub/{fname}"
         elif kind == "parent":
             rel = fname
+        elif kind == "sibling":
+            # a directory next to the main file's directory whose name begins with that directory's name
+            rel = g.pick(["proj_common", "project", "proj2", "proj.d"]) + "/" + fname
         elif kind == "abs":
             rel = f"elsewhere/{fname}"
         else:
